@@ -50,27 +50,34 @@ def plane_key(n, p0):
     return nn, dot(nn, p0)
 
 
+def branch_for_dim(f, k):
+    """the body of the `<name> == k` branch of the dimension dispatch in Get_pointsInElem"""
+    for n in ast.walk(f.node):
+        if isinstance(n, ast.If) and isinstance(n.test, ast.Compare) and isinstance(n.test.left, ast.Name) and isinstance(n.test.ops[0], ast.Eq) and isinstance(n.test.comparators[0], ast.Constant) and n.test.comparators[0].value == k:
+            return n
+    return None
+
+
 def location_triples(lib, ed):
-    """(p0, p1, p2) node triples of the faces exactly as Get_pointsInElem builds them (its dim == 3 statements up to p2_f are interpreted)"""
+    """(p0, p1, p2) node triples of the faces exactly as Get_pointsInElem builds them (its dim == 3 statements up to the three index lists are interpreted)"""
     repo = lib.repo
     f = repo.method(GE, "Get_pointsInElem")
-    branch3 = None
-    for n in ast.walk(f.node):
-        if isinstance(n, ast.If) and norm_text(n.test) == "dim == 3":
-            branch3 = n
+    branch3 = branch_for_dim(f, 3)
     if branch3 is None:
         raise AnalysisError("dim == 3 branch of Get_pointsInElem not found")
-    stmts = []
+    stmts, names = [], []
     for st in branch3.body:
-        if isinstance(st, ast.Assign) and "coord" in [t.id for t in st.targets if isinstance(t, ast.Name)]:
+        if isinstance(st, ast.Assign) and "self.coord" in norm_text(st.value):
             continue
         stmts.append(st)
-        if isinstance(st, ast.Assign) and any(isinstance(t, ast.Name) and t.id == "p2_f" for t in st.targets):
-            break
-    else:
-        raise AnalysisError("Get_pointsInElem no longer builds p0_f / p1_f / p2_f")
+        if isinstance(st, ast.Assign) and isinstance(st.value, ast.ListComp) and isinstance(st.value.elt, ast.Subscript) and isinstance(st.targets[0], ast.Name):
+            names.append(st.targets[0].id)
+            if len(names) == 3:
+                break
+    if len(names) != 3:
+        raise AnalysisError("Get_pointsInElem no longer builds the three face index lists [surface[0]], [surface[1]], [surface[-1]]")
     I = Interp(repo)
-    p0, p1, p2 = I.run_statements(stmts, {"self": ed.obj}, f.module, ["p0_f", "p1_f", "p2_f"], cls=f.cls)
+    p0, p1, p2 = I.run_statements(stmts, {"self": ed.obj}, f.module, names, cls=f.cls)
     return [(int(a), int(b), int(c)) for a, b, c in zip(p0, p1, p2)]
 
 
@@ -193,10 +200,7 @@ def orientation_rule(ctx):
     r = ctx.rule("R8.2", "orientation independence of point location: the 2-D test derives its normal from the element itself; the 3-D test must normalise the sign of its outward normals by the element's own orientation", min_instances=1)
     f = repo.method(GE, "Get_pointsInElem")
     r.instance(fn=f.qualname)
-    branch3 = None
-    for n in ast.walk(f.node):
-        if isinstance(n, ast.If) and norm_text(n.test) == "dim == 3":
-            branch3 = n
+    branch3 = branch_for_dim(f, 3)
     if branch3 is None:
         raise AnalysisError("R8.2: dim == 3 branch of Get_pointsInElem not found")
     body = norm_text(ast.Module(body=branch3.body, type_ignores=[]))
